@@ -252,7 +252,9 @@ class Bed:
                     continue
                 self.hit(f"worker {w} claimed row {rid} while worker {l['w']} holds it (lock not lapsed, not released); cause={cause}",
                          f"held-row-claimed:{cause}")
-        self.leases.setdefault(rid, []).append({"w": w, "live": True, "revived": False})
+        # a new claim by the same worker supersedes its older lease on that row (it now holds the new Message)
+        self.leases[rid] = [l for l in self.leases.get(rid, []) if l["w"] != w]
+        self.leases[rid].append({"w": w, "live": True, "revived": False})
         self.breaker.pop(rid, None)
         if attempts_after - 1 >= self.max_attempts:
             self.hit(f"row {rid} delivered with attempts={attempts_after - 1} >= max_attempts={self.max_attempts}", "polled-at-limit")
